@@ -13,3 +13,9 @@ Definition r_div (a b : Z) : outcome Z := if b =? 0 then Panic else Ok (a / b).
 Definition r_rem (a b : Z) : outcome Z := if b =? 0 then Panic else Ok (a mod b).
 Definition r_try_into (w x e : Z) : outcome Z := if x <? 2 ^ w then Ok x else Err e.
 Definition r_ok_or {A} (o : option A) (e : Z) : outcome A := match o with Some a => Ok a | None => Err e end.
+
+(* &data[lo..hi] on a slice of length dlen: the index range, or a panic (lo > hi or hi > dlen) *)
+Definition r_slice (dlen lo hi : Z) : outcome (Z * Z) :=
+  if (lo <=? hi) && (hi <=? dlen) then Ok (lo, hi) else Panic.
+(* Result::unwrap *)
+Definition r_unwrap {A} (x : outcome A) : outcome A := match x with Err _ => Panic | o => o end.
